@@ -17,8 +17,8 @@ import concurrent.futures, json, os, random, re
 import core
 from stages.common import *
 
-MON_C08 = {"LegalStep", "EpochMonotone", "FinishedOnlyByLaterComplete", "RejectedIsNoOp",
-           "InvalidProposalRejected", "StillUsable", "TimedOutUsable"}
+MON_C08 = {"LegalStep", "EpochMonotone", "FinishedOnlyByLaterComplete", "RejectedKeepsFinished",
+           "RejectedLeavesUsable", "InvalidProposalRejected", "StillUsable"}
 MON_C09 = {"C09_SignedBySender", "C09_KeyFromGroup", "C09_Entitled", "C09_SigCoversTerms"}
 DRIFT = {"Conformance", "Harness", "Blocked"}
 
@@ -287,6 +287,12 @@ def _execute(ctx, monitors, scripts, kinds):
                       replay=_replay_file(ctx, byname[a["scenario"]], sig) if a["scenario"] in byname else None)
         elif a["mon"] not in DRIFT:
             seen[a["mon"]] = seen.get(a["mon"], 0) + 1
+    info = {k: v for k, v in seen.items() if k.startswith("Info_")}
+    seen = {k: v for k, v in seen.items() if not k.startswith("Info_")}
+    if info:
+        ctx.notes.append("observations that are not part of the verdict: %s (Info_TimedOutNeedsAbort: no code path ever sets status TimedOut; "
+                         "after the proposal timeout the next proposal is refused until an explicit abort, which the check shows to work)"
+                         % json.dumps(info, sort_keys=True))
     if seen:
         ctx.notes.append("monitor failures of the sibling property observed in the same trace (judged by its own check): %s"
                          % json.dumps(seen, sort_keys=True))
